@@ -933,3 +933,206 @@ Definition template_nth_inplace (defs : list definition) := iter_cases (template
 (* values that quote_all leaves alone *)
 Definition quote_stable (s : str) : bool :=
   forallb always_safe s && negb (str_eqb s [46]) && negb (str_eqb s [46; 46]).
+
+(* ------------------------------------------------------------------------------------------------ *)
+(* 12. configuration histories on ONE schema object (schemas.py, specs/openapi/schemas.py, transport/wsgi.py, asgi.py)
+   The base URL, the location, servers/basePath and the application are changed IN PLACE (schema.configure(..),
+   schema.base_url = .., raw_schema edits) between sends.  Every send reads the configuration that is current at
+   that moment; the only state a send takes from the past is the operation object (APIOperation.base_url and .app
+   are set by make_operation: fresh from get_all_operations, cached per path by schema[path][method]).          *)
+(* ------------------------------------------------------------------------------------------------ *)
+Inductive transport := TRequests | TWsgi | TAsgi.
+Definition transport_eqb (a b : transport) : bool :=
+  match a, b with TRequests, TRequests | TWsgi, TWsgi | TAsgi, TAsgi => true | _, _ => false end.
+
+(* a URL text split the way urlsplit splits it: prefix = empty or scheme://netloc (never ends with a slash),
+   path = everything after it (no query, no fragment).  The text is prefix ++ path. *)
+Record burl := { bu_prefix : str; bu_path : str }.
+Definition burl_text (u : burl) : str := bu_prefix u ++ bu_path u.
+
+(* _get_base_path: Swagger 2 basePath (default /), OpenAPI 3 path of servers[0].url (default /) *)
+Inductive spec := SpV2 (base_path : option str) | SpV3 (servers : list burl).
+Definition spec_base_path (sp : spec) : str :=
+  match sp with
+  | SpV2 (Some p) => p
+  | SpV2 None => [47]
+  | SpV3 (s :: _) => bu_path s
+  | SpV3 [] => [47]
+  end.
+
+Record config := { cf_base : option burl; cf_loc : str; cf_spec : spec; cf_app : transport }.
+
+Definition add_slash (p : str) : str := if ends_with_slash p then p else p ++ [47].
+Definition rstrip_slash (s : str) : str := rev (lstrip_slash (rev s)).
+(* urlunsplit((scheme, netloc, path, .., ..)): a slash goes between a netloc and a non-empty relative path *)
+Definition unsplit (prefix path : str) : burl :=
+  {| bu_prefix := prefix;
+     bu_path := if negb (is_nil prefix) && negb (is_nil path) && negb (starts_with [47] path) then 47 :: path else path |}.
+
+(* BaseSchema.base_path (schemas.py:233): `if self.base_url:` is a truth test, the empty text falls back to the spec *)
+Definition cfg_base_path (c : config) : str :=
+  add_slash (match cf_base c with
+             | Some u => if is_nil (burl_text u) then spec_base_path (cf_spec c) else bu_path u
+             | None => spec_base_path (cf_spec c)
+             end).
+(* BaseSchema.get_base_url (schemas.py:254): `is not None` test, rstrip of slashes; else _build_base_url *)
+Definition cfg_base_url (c : config) : burl :=
+  match cf_base c with
+  | Some u => {| bu_prefix := bu_prefix u; bu_path := rstrip_slash (bu_path u) |}
+  | None => unsplit (cf_loc c) (spec_base_path (cf_spec c))
+  end.
+(* normalize_base_url (transport/prepare.py:57) *)
+Definition s_http_localhost : str := [104;116;116;112;58;47;47;108;111;99;97;108;104;111;115;116].
+Definition normalize_base (u : burl) : burl :=
+  if is_nil (bu_prefix u) then unsplit s_http_localhost (bu_path u) else u.
+
+(* path component of urljoin(base, rel) for a base whose path bpath ends with a slash; netloc tells whether the base
+   has a netloc (urlunparse then puts a slash in front of a path that lost its leading empty segment) *)
+Definition urljoin_path (netloc : bool) (bpath path : str) : str :=
+  if is_nil path then bpath
+  else
+    let segments := filter_middle (split_on 47 bpath ++ split_on 47 path) in
+    let resolved := resolve_dots segments [] in
+    let resolved' := if is_dot (last segments []) || is_dotdot (last segments []) then resolved ++ [[]] else resolved in
+    let p := join [47] resolved' in
+    match p with [] => [47] | 47 :: _ => p | _ => if netloc then 47 :: p else p end.
+(* get_full_path(base_path, path) (schemas.py:64) = unquote(urljoin(base_path, quote(path.lstrip(/)))) *)
+Definition get_full_path (base_path path : str) : str := urljoin_path false base_path (lstrip_slash path).
+(* path component of prepare_url for a base URL with a netloc *)
+Definition prepare_url_path (u : burl) (formatted : str) : str :=
+  urljoin_path true (if ends_with_slash (burl_text u) then bu_path u else bu_path u ++ [47]) (lstrip_slash formatted).
+
+(* what make_operation copies into the APIOperation *)
+Record opsnap := { os_base : burl; os_app : transport }.
+Definition make_op (c : config) : opsnap := {| os_base := cfg_base_url c; os_app := cf_app c |}.
+
+Inductive how := Fresh | Cached.
+Inductive event :=
+  | EvBase (b : option burl)        (* schema.configure(base_url=b) / schema.base_url = b *)
+  | EvLoc (l : str)                 (* schema.configure(location=l + /openapi.json); empty = None *)
+  | EvSpec (sp : spec)              (* raw_schema[servers] / raw_schema[basePath] replaced *)
+  | EvApp (t : transport)           (* schema.configure(app=..) *)
+  | EvSend (h : how) (tmpl : str) (params : item)   (* operation fresh / from the cache, Case(path_parameters).call() *)
+  | EvFullPath (tmpl : str)         (* operation.full_path / schema.get_full_path(tmpl) *)
+  | EvBasePath.                     (* schema.base_path *)
+(* wire = percent-decoded path the application receives; reported = response.request.url (decoded) *)
+Inductive obs := ONone | OSent (wire reported : str) | ORaises | OUnmodelled | OPath (p : str).
+
+(* memo = a remembered base path.  The code reads the configuration every time (read_live).  read_memo is the
+   SENTINEL rule (base_path computed once per schema object), kept for the witness that tells the two apart. *)
+Record hstate := { hs_cfg : config; hs_cache : list (str * opsnap); hs_memo : option str }.
+Definition reader := config -> option str -> str * option str.
+Definition read_live : reader := fun c memo => (cfg_base_path c, memo).
+Definition read_memo : reader := fun c memo =>
+  match memo with Some p => (p, memo) | None => (cfg_base_path c, Some (cfg_base_path c)) end.
+
+Definition url_of (u : burl) (f : str) : str := bu_prefix u ++ prepare_url_path u f.
+Definition send_obs (bp : str) (c : config) (o : opsnap) (f : str) : obs :=
+  if negb (transport_eqb (os_app o) (cf_app c)) then OUnmodelled
+  else match cf_app c with
+       | TRequests =>
+           (* validate_vanilla_requests_kwargs: no netloc - RuntimeError *)
+           if is_nil (bu_prefix (os_base o)) then ORaises
+           else OSent (prepare_url_path (os_base o) f) (url_of (os_base o) f)
+       | TWsgi =>
+           (* path = schema.get_full_path(..): the schema, not the operation; the reported request is rebuilt from operation.base_url *)
+           OSent (get_full_path bp f) (url_of (normalize_base (os_base o)) f)
+       | TAsgi =>
+           OSent (prepare_url_path (normalize_base (os_base o)) f) (url_of (normalize_base (os_base o)) f)
+       end.
+Definition reads_base_path (c : config) : bool := match cf_app c with TWsgi => true | _ => false end.
+
+Definition set_cfg (s : hstate) (c : config) : hstate := {| hs_cfg := c; hs_cache := hs_cache s; hs_memo := hs_memo s |}.
+Definition cfg_update (c : config) (e : event) : config :=
+  match e with
+  | EvBase b => {| cf_base := b; cf_loc := cf_loc c; cf_spec := cf_spec c; cf_app := cf_app c |}
+  | EvLoc l => {| cf_base := cf_base c; cf_loc := l; cf_spec := cf_spec c; cf_app := cf_app c |}
+  | EvSpec sp => {| cf_base := cf_base c; cf_loc := cf_loc c; cf_spec := sp; cf_app := cf_app c |}
+  | EvApp t => {| cf_base := cf_base c; cf_loc := cf_loc c; cf_spec := cf_spec c; cf_app := t |}
+  | _ => c
+  end.
+(* the operation object a send works with, and the cache afterwards *)
+Definition op_used (s : hstate) (h : how) (tmpl : str) : opsnap :=
+  match h with
+  | Fresh => make_op (hs_cfg s)
+  | Cached => match d_get tmpl (hs_cache s) with Some o => o | None => make_op (hs_cfg s) end
+  end.
+Definition cache_after (s : hstate) (h : how) (tmpl : str) : list (str * opsnap) :=
+  match h with
+  | Fresh => hs_cache s
+  | Cached => match d_get tmpl (hs_cache s) with Some _ => hs_cache s | None => d_set tmpl (make_op (hs_cfg s)) (hs_cache s) end
+  end.
+Definition hstep_with (rd : reader) (s : hstate) (e : event) : hstate * obs :=
+  let c := hs_cfg s in
+  match e with
+  | EvBase _ | EvLoc _ | EvSpec _ | EvApp _ => (set_cfg s (cfg_update c e), ONone)
+  | EvBasePath =>
+      ({| hs_cfg := c; hs_cache := hs_cache s; hs_memo := snd (rd c (hs_memo s)) |}, OPath (fst (rd c (hs_memo s))))
+  | EvFullPath tmpl =>
+      ({| hs_cfg := c; hs_cache := hs_cache s; hs_memo := snd (rd c (hs_memo s)) |}, OPath (get_full_path (fst (rd c (hs_memo s))) tmpl))
+  | EvSend h tmpl params =>
+      let o := op_used s h tmpl in
+      let cache := cache_after s h tmpl in
+      match prepare_path tmpl params with
+      | FOk f =>
+          if transport_eqb (os_app o) (cf_app c) && reads_base_path c then
+            ({| hs_cfg := c; hs_cache := cache; hs_memo := snd (rd c (hs_memo s)) |}, send_obs (fst (rd c (hs_memo s))) c o f)
+          else ({| hs_cfg := c; hs_cache := cache; hs_memo := hs_memo s |}, send_obs (cfg_base_path c) c o f)
+      | FInvalidSchema => ({| hs_cfg := c; hs_cache := cache; hs_memo := hs_memo s |}, ORaises)
+      | FUnmodelled => ({| hs_cfg := c; hs_cache := cache; hs_memo := hs_memo s |}, OUnmodelled)
+      end
+  end.
+Fixpoint run_with (rd : reader) (s : hstate) (h : list event) : list obs :=
+  match h with
+  | [] => []
+  | e :: r => let (s', o) := hstep_with rd s e in o :: run_with rd s' r
+  end.
+Fixpoint exec_with (rd : reader) (s : hstate) (h : list event) : hstate :=
+  match h with [] => s | e :: r => exec_with rd (fst (hstep_with rd s e)) r end.
+Definition hstep := hstep_with read_live.
+Definition run_history := run_with read_live.
+Definition exec_history := exec_with read_live.
+Definition run_history_memo := run_with read_memo.     (* SENTINEL *)
+Definition init_state (c : config) : hstate := {| hs_cfg := c; hs_cache := []; hs_memo := None |}.
+
+(* the property: the path on the wire = current base path joined with the filled template *)
+Definition expected_path (c : config) (f : str) : str := get_full_path (cfg_base_path c) f.
+(* the last write of every configuration field wins *)
+Definition final_cfg (c : config) (h : list event) : config := fold_left cfg_update h c.
+
+Definition last_write {A} (pick : event -> option A) (h : list event) (a0 : A) : A :=
+  fold_left (fun a e => match pick e with Some x => x | None => a end) h a0.
+Definition pick_base (e : event) : option (option burl) := match e with EvBase b => Some b | _ => None end.
+Definition pick_loc (e : event) : option str := match e with EvLoc l => Some l | _ => None end.
+Definition pick_spec (e : event) : option spec := match e with EvSpec sp => Some sp | _ => None end.
+Definition pick_app (e : event) : option transport := match e with EvApp t => Some t | _ => None end.
+(* the prefix of the reported request URL *)
+Definition reported_prefix (c : config) : str :=
+  match cf_app c with
+  | TRequests => bu_prefix (cfg_base_url c)
+  | _ => bu_prefix (normalize_base (cfg_base_url c))
+  end.
+Definition cannot_send (c : config) : bool :=     (* the requests transport needs a netloc *)
+  match cf_app c with TRequests => is_nil (bu_prefix (cfg_base_url c)) | _ => false end.
+Definition obs_wire (o : obs) : option str := match o with OSent w _ => Some w | _ => None end.
+Definition obs_reported (o : obs) : option str := match o with OSent _ r => Some r | _ => None end.
+
+(* regions *)
+(* events that take an operation object from the cache of schema[path][method] *)
+Definition uses_cache (e : event) : bool := match e with EvSend Cached _ _ => true | _ => false end.
+Definition no_dotdot (s : str) : bool := negb (existsb is_dotdot (split_on 47 s)).
+(* the configured base path: empty or absolute, no trailing double slash; its slash-terminated form has no dot-dot segment *)
+Definition cfg_path (c : config) : str :=
+  match cf_base c with Some u => bu_path u | None => spec_base_path (cf_spec c) end.
+Definition cfg_ok (c : config) : bool :=
+  match cf_base c with
+  | Some u => negb (is_nil (burl_text u)) && negb (ends_with_slash (bu_prefix u))
+  | None => negb (ends_with_slash (cf_loc c)) && starts_with [47] (cfg_path c)
+  end
+  && (is_nil (cfg_path c) || starts_with [47] (cfg_path c))
+  && negb (starts_with [47;47] (rev (cfg_path c)))
+  && no_dotdot (cfg_base_path c).
+(* the operation object in hand was made under the present configuration *)
+Definition burl_eqb (a b : burl) : bool := str_eqb (bu_prefix a) (bu_prefix b) && str_eqb (bu_path a) (bu_path b).
+Definition op_current (c : config) (o : opsnap) : bool :=
+  burl_eqb (os_base o) (cfg_base_url c) && transport_eqb (os_app o) (cf_app c).
